@@ -827,9 +827,21 @@ int tls_process_client_hello_exts(const uint8_t *exts, size_t extslen, uint8_t *
 	int type;
 	const uint8_t *data;
 	size_t datalen;
+	int seen_ec_point_formats = 0;
+	int seen_signature_algorithms = 0;
+	int seen_supported_groups = 0;
 
 	while (extslen) {
 		if (tls_ext_from_bytes(&type, &data, &datalen, &exts, &extslen) != 1) {
+			error_print();
+			return -1;
+		}
+
+		// an extension type must not appear twice; every answer is written to out, which the repeats would overrun
+		if ((type == TLS_extension_ec_point_formats && seen_ec_point_formats++)
+			|| (type == TLS_extension_signature_algorithms && seen_signature_algorithms++)
+			|| (type == TLS_extension_supported_groups && seen_supported_groups++)
+			|| *outlen > maxlen) {
 			error_print();
 			return -1;
 		}
